@@ -72,7 +72,8 @@ def check(prog: Program, tier: str) -> Result:
     _r4_j(prog, res)
     _r4_k(prog, res)
     _r4_l(prog, res)
-    res.floors.update({"R4.a": 25, "R4.b": 200, "R4.c": 4, "R4.d": 18, "R4.e": 8, "R4.f": 40, "R4.h": 2, "R4.i": 2, "R4.j": 5, "R4.k": 1})
+    _r4_m(prog, res)
+    res.floors.update({"R4.m": 2, "R4.a": 25, "R4.b": 200, "R4.c": 4, "R4.d": 18, "R4.e": 8, "R4.f": 40, "R4.h": 2, "R4.i": 2, "R4.j": 5, "R4.k": 1})
     return res
 
 
@@ -707,6 +708,43 @@ def _r4_k(prog: Program, res: Result) -> None:
 
 
 # ------------------------------------------------------------------------------------------------ R4.l
+PARSE_FAILURES = ("SyntaxError", "ValueError", "RecursionError", "MemoryError")
+
+
+def _r4_m(prog: Program, res: Result) -> None:
+    """The validity oracles are TOTAL.  An oracle is a function that hands its text parameter to ast.parse / compile inside
+    a `try` and answers a boolean; every caller relies on it to say "no" for a text Python cannot take, and the input of
+    the formatter is arbitrary text.  The documented failure modes of the parser / compiler are SyntaxError, ValueError
+    (null bytes, and UnicodeEncodeError for lone surrogates - a str read with errors='surrogateescape'), RecursionError and
+    MemoryError (deeply nested or very long expressions).  Each must be covered by a handler that answers False - an
+    uncovered one leaves format_code as an exception instead of 'input handed back'."""
+    from ..evaluator import covers
+    n = 0
+    for fn in prog.funcs.values():
+        if not fn.posparams:
+            continue
+        p = fn.posparams[0]
+        for t in walk_own(fn.node):
+            if not isinstance(t, ast.Try):
+                continue
+            calls = [c for st in t.body for c in ast.walk(st) if isinstance(c, ast.Call) and (prog.dotted(c.func) in ("ast.parse", "compile"))
+                     and c.args and isinstance(c.args[0], ast.Name) and c.args[0].id == p]
+            if not calls:
+                continue
+            answers_bool = [r for r in walk_own(fn.node) if isinstance(r, ast.Return) and isinstance(r.value, ast.Constant) and isinstance(r.value.value, bool)]
+            all_returns = [r for r in walk_own(fn.node) if isinstance(r, ast.Return)]
+            if not answers_bool or len(answers_bool) != len(all_returns):
+                continue      # not an oracle: it uses the tree
+            n += 1
+            missing = [e for e in PARSE_FAILURES if not any(covers(h, e) for h in t.handlers)]
+            res.decide(not missing, "R4.m", fn.loc(calls[0]), fn.fq, f"{short(calls[0], 60)} # handlers of the oracle",
+                       "handlers cover SyntaxError, ValueError, RecursionError and MemoryError" if not missing else
+                       f"{', '.join(missing)} of the parser is not handled: for such a text the oracle raises instead of answering False, and the formatter raises instead "
+                       "of handing the input back (a lone surrogate gives UnicodeEncodeError, a 3000-term sum RecursionError)")
+    if n == 0:
+        raise AnalysisError("no validity oracle (try: ast.parse(param) ... return bool) found")
+
+
 def _r4_l(prog: Program, res: Result) -> None:
     """Parsing a SNIPPET: core.parse / ast.parse of a text that is not the function's own text parameter (the spelling of
     one literal, an uncommented comment block, ...) raises SyntaxError unless the snippet was validated first.  A
@@ -1012,6 +1050,12 @@ class ValidPA(PathAnalysis):
 from ..selftest import Variant  # noqa: E402
 
 VARIANTS = [
+    Variant("oracle-handles-syntax-errors-only", "FIRE", "core",
+            "    except (SyntaxError, ValueError, RecursionError, MemoryError):\n        # ValueError: null bytes, lone surrogates. RecursionError: too deeply nested for the parser.\n        return False",
+            "    except SyntaxError:\n        return False", "R4.m"),
+    Variant("oracle-handles-everything", "SILENT", "core",
+            "    except (SyntaxError, ValueError, RecursionError, MemoryError):\n        # ValueError: null bytes, lone surrogates. RecursionError: too deeply nested for the parser.\n        return False",
+            "    except Exception:\n        return False"),
     Variant("first-line-of-an-empty-replacement", "FIRE", "processing",
             "        if new_code and not core.is_valid_python(choice):  # Nothing to indent in a deletion", "        if not core.is_valid_python(choice):", "R4.k"),
     Variant("first-line-of-an-empty-match", "FIRE", "pattern_matching",
